@@ -95,6 +95,17 @@ func flattenFuncs(w *World) (fns []*ssa.Function, stores map[*ssa.Function][]*ss
 
 // collOf: v is the value of a collection field of a parameter: load(&param.Field) -> "param#i.Field".
 func collOf(v ssa.Value) string {
+	// a slice parameter of a helper is the collection its caller hands over
+	if p, isP := v.(*ssa.Parameter); isP {
+		if _, isSlice := p.Type().Underlying().(*types.Slice); isSlice {
+			for i, q := range p.Parent().Params {
+				if q == p {
+					return fmt.Sprintf("param#%d", i)
+				}
+			}
+		}
+		return ""
+	}
 	u, ok := v.(*ssa.UnOp)
 	if !ok || u.Op != token.MUL {
 		return ""
@@ -229,50 +240,13 @@ type emission struct {
 	bad      string
 }
 
-// analyseEmission decides how the emission in block eb is guarded inside its loop.
-func analyseEmission(e *emission) {
-	l, eb := e.loop, e.call.Block()
-	inBody := func(b *ssa.BasicBlock) bool { return l.blocks[b] && b != l.header }
-	// blocks that can still reach the emission in this iteration
-	reach := map[*ssa.BasicBlock]bool{eb: true}
-	for changed := true; changed; {
-		changed = false
-		for b := range l.blocks {
-			if reach[b] {
-				continue
-			}
-			for _, s := range b.Succs {
-				if inBody(s) && reach[s] {
-					reach[b] = true
-					changed = true
-				}
-			}
-		}
-	}
-	var deciding []*ssa.BasicBlock
-	for b := range l.blocks {
-		for _, s := range b.Succs {
-			if !l.blocks[s] && b != l.header && !eb.Dominates(b) {
-				e.bad = "the loop can be left before the element is emitted (the remaining elements are counted but not emitted)"
-				return
-			}
-		}
-		if b == l.header || !reach[b] || eb.Dominates(b) {
-			continue
-		}
-		if _, isIf := b.Instrs[len(b.Instrs)-1].(*ssa.If); !isIf {
-			continue
-		}
-		for _, s := range b.Succs {
-			if !(inBody(s) && reach[s]) {
-				deciding = append(deciding, b)
-				break
-			}
-		}
-	}
+// loopGuardsOK: "" when nothing outside the emitting loop (e.loop) can keep control from reaching it except the
+// emptiness test of the same collection or an error return; otherwise the reason.
+func loopGuardsOK(e *emission) string {
 	// guards around the loop: a decision outside the loop that can keep control from reaching it must be the
 	// emptiness test of the same collection or lead to an error return
-	fn := eb.Parent()
+	l := e.loop
+	fn := e.call.Block().Parent()
 	reaches := func(from, to *ssa.BasicBlock) bool {
 		seen := map[*ssa.BasicBlock]bool{}
 		stack := []*ssa.BasicBlock{from}
@@ -319,10 +293,79 @@ func analyseEmission(e *emission) {
 				}
 			}
 			if !okGuard {
-				e.bad = "the emitting loop is itself executed only under a condition (" + canonCond(iff.Cond, e.coll, 0) + ") although its elements are always counted"
+				return "the emitting loop is itself executed only under a condition (" + canonCond(iff.Cond, e.coll, 0) + ") although its elements are always counted"
+			}
+		}
+	}
+	return ""
+}
+
+// normBoolCond rewrites a decision compared with a boolean constant into the decision itself:
+// skip-when((A != true) = b) is skip-when(A = !b), and so on; a leading negation flips the outcome.
+func normBoolCond(cond string, skipWhen bool) (string, bool) {
+	for {
+		c := strings.TrimSpace(cond)
+		switch {
+		case strings.HasPrefix(c, "(") && strings.HasSuffix(c, " != true)"):
+			cond, skipWhen = c[1:len(c)-len(" != true)")], !skipWhen
+		case strings.HasPrefix(c, "(") && strings.HasSuffix(c, " == false)"):
+			cond, skipWhen = c[1:len(c)-len(" == false)")], !skipWhen
+		case strings.HasPrefix(c, "(") && strings.HasSuffix(c, " != false)"):
+			cond = c[1 : len(c)-len(" != false)")]
+		case strings.HasPrefix(c, "(") && strings.HasSuffix(c, " == true)"):
+			cond = c[1 : len(c)-len(" == true)")]
+		case strings.HasPrefix(c, "!"):
+			cond, skipWhen = c[1:], !skipWhen
+		default:
+			return c, skipWhen
+		}
+	}
+}
+
+// analyseEmission decides how the emission in block eb is guarded inside its loop.
+func analyseEmission(e *emission) {
+	l, eb := e.loop, e.call.Block()
+	inBody := func(b *ssa.BasicBlock) bool { return l.blocks[b] && b != l.header }
+	// blocks that can still reach the emission in this iteration
+	reach := map[*ssa.BasicBlock]bool{eb: true}
+	for changed := true; changed; {
+		changed = false
+		for b := range l.blocks {
+			if reach[b] {
+				continue
+			}
+			for _, s := range b.Succs {
+				if inBody(s) && reach[s] {
+					reach[b] = true
+					changed = true
+				}
+			}
+		}
+	}
+	var deciding []*ssa.BasicBlock
+	for b := range l.blocks {
+		for _, s := range b.Succs {
+			if !l.blocks[s] && b != l.header && !eb.Dominates(b) {
+				e.bad = "the loop can be left before the element is emitted (the remaining elements are counted but not emitted)"
 				return
 			}
 		}
+		if b == l.header || !reach[b] || eb.Dominates(b) {
+			continue
+		}
+		if _, isIf := b.Instrs[len(b.Instrs)-1].(*ssa.If); !isIf {
+			continue
+		}
+		for _, s := range b.Succs {
+			if !(inBody(s) && reach[s]) {
+				deciding = append(deciding, b)
+				break
+			}
+		}
+	}
+	if why := loopGuardsOK(e); why != "" {
+		e.bad = why
+		return
 	}
 	// the header decides only whether there is another element; a header that reaches the emission through its
 	// body successor is not a guard
@@ -405,6 +448,85 @@ func addSubtraceRule(w *World, r *Report, rule string) {
 					analyseEmission(e)
 				}
 				ems = append(ems, e)
+			}
+		}
+		// emissions through a fork helper: the helper emits the elements of a collection it is handed (a slice
+		// parameter, or a collection field of a record parameter); every call of it in fn is one emission of the
+		// collection bound at that call, under the helper's own decision with its parameters replaced by the
+		// (constant) arguments
+		for _, b := range fn.Blocks {
+			for _, ins := range b.Instrs {
+				c, ok := ins.(*ssa.Call)
+				h := (*ssa.Function)(nil)
+				if ok {
+					h = c.Call.StaticCallee()
+				}
+				if h == nil || isFlatten[h] || h.Pkg == nil || h.Pkg.Pkg.Path() != forkPath(pkNative) || h.Blocks == nil || len(c.Call.Args) != len(h.Params) {
+					continue
+				}
+				hloops := naturalLoops(h)
+				for _, hb := range h.Blocks {
+					for _, hins := range hb.Instrs {
+						hc, ok := hins.(*ssa.Call)
+						if !ok || hc.Call.StaticCallee() == nil || !isFlatten[hc.Call.StaticCallee()] || len(hc.Call.Args) == 0 {
+							continue
+						}
+						he := &emission{call: hc, coll: elemOf(hc.Call.Args[0], 0), loop: innermostLoop(hloops, hb)}
+						e := &emission{call: c, loop: &natLoop{header: hb}} // one emission per call site of the helper
+						switch {
+						case he.coll == "":
+							e.bad = "the helper " + h.Name() + " emits a child that is not an element of a collection it was handed"
+						case he.loop == nil:
+							e.bad = "the helper " + h.Name() + " emits an element outside a loop"
+						default:
+							analyseEmission(he)
+							e.bad = he.bad
+						}
+						if e.bad == "" {
+							// bind the helper's collection and decision to this call
+							var k int
+							field := ""
+							if _, err := fmt.Sscanf(he.coll, "param#%d.%s", &k, &field); err != nil {
+								field = ""
+								if _, err2 := fmt.Sscanf(he.coll, "param#%d", &k); err2 != nil {
+									k = -1
+								}
+							}
+							switch {
+							case k < 0 || k >= len(c.Call.Args):
+								e.bad = "the collection the helper " + h.Name() + " emits could not be bound at its call"
+							case field == "":
+								e.coll = collOf(c.Call.Args[k])
+							default:
+								if p, isP := c.Call.Args[k].(*ssa.Parameter); isP {
+									for i, q := range fn.Params {
+										if q == p {
+											e.coll = fmt.Sprintf("param#%d.%s", i, field)
+										}
+									}
+								}
+							}
+							if e.coll == "" && e.bad == "" {
+								e.bad = "the collection handed to " + h.Name() + " is not a collection of the input record"
+							}
+							cond := he.cond
+							for i := len(c.Call.Args) - 1; i >= 0; i-- {
+								if kc, isConst := c.Call.Args[i].(*ssa.Const); isConst {
+									cond = strings.ReplaceAll(cond, fmt.Sprintf("param#%d", i), canonCond(kc, "", 0))
+								}
+							}
+							e.cond, e.skipWhen = normBoolCond(cond, he.skipWhen)
+							// the call of the helper itself must not be conditional
+							if e.bad == "" {
+								probe := &emission{call: c, coll: e.coll, loop: &natLoop{header: b, blocks: map[*ssa.BasicBlock]bool{b: true}}}
+								if why := loopGuardsOK(probe); why != "" {
+									e.bad = why
+								}
+							}
+						}
+						ems = append(ems, e)
+					}
+				}
 			}
 		}
 		byColl := map[string][]*emission{}
